@@ -136,7 +136,7 @@ func rtmpDecodeAs(b []byte, typ int) string {
 	return okIf(err == nil)
 }
 
-var rtmpMsgTypes = []int{1, 4, 5, 6, 15, 17, 18, 20, 8, 2, 3}
+var rtmpMsgTypes = []int{1, 4, 5, 6, 15, 17, 18, 20, 8}
 
 // ---------------------------------------------------------------- amf0
 
